@@ -94,7 +94,14 @@ def cases(draw):
     rnd = mmgen.DrawRnd(draw)
     g = mmgen.Gen(rnd)
     lines = [g.header()]
-    if draw(st.integers(0, 3)) == 0 and len(g.vars) >= 2:
+    with_distinct = draw(st.integers(0, 2)) == 0
+    if with_distinct:
+        # an axiom with its own disjoint-variable restriction, and a top-level $d over three or more variables declared
+        # after the axioms (so it only restricts the lemmas and serves as their context)
+        lines.append('${ $d ph0 ph1 $. ax-d $a |- ( \\imp ph0 ph1 ) $. $}')
+        dvars = list(draw(st.permutations(g.vars)))[: draw(st.integers(3, len(g.vars)))] if len(g.vars) >= 3 else list(g.vars)
+        lines.append('$d %s $.' % ' '.join(dvars))
+    elif draw(st.integers(0, 3)) == 0 and len(g.vars) >= 2:
         pair = draw(st.lists(st.sampled_from(g.vars), min_size=2, max_size=2, unique=True))
         lines.append('$d %s $.' % ' '.join(pair))
     lemmas = []
@@ -103,6 +110,18 @@ def cases(draw):
         nleaves = draw(st.sampled_from([0, 1, 2, 3]))
         leaves = rnd.sample(g.vars, min(nleaves, g.nvars))
         hyp = None
+        if with_distinct and draw(st.booleans()):
+            a_, b_ = draw(st.lists(st.sampled_from(dvars), min_size=2, max_size=2, unique=True))
+            g.axioms['ax-d'] = ('\\imp', 'ph0', 'ph1')
+            node = ('ax-d', {'ph0': a_, 'ph1': b_}, [])
+            goal = g.concl(node)
+            rpn = []
+            g.emit(node, rpn)
+            proof = compress_with_hyps(g, rpn, mmgen.tvars(goal), [], 'none')
+            del g.axioms['ax-d']
+            lines.append('%s $p |- %s $= %s $.' % (label, mmgen.tstr(goal), proof))
+            lemmas.append({'label': label, 'stmt': '|- ' + mmgen.tstr(goal), 'has_hyp': False, 'has_d': True, 'nvars': 2, 'deps': []})
+            continue
         if draw(st.integers(0, 2)) == 0:
             hyp = g.rterm(1, leaves)
             g.axioms[label + '.0'] = hyp     # usable as a step inside this lemma's derivation
